@@ -344,6 +344,10 @@ impl super::MainState {
                             },
                         )
                         .await?;
+                        // nick has been taken by other user between check in NICK command and
+                        // this moment - same result as after NICK with used nick: no nick.
+                        conn_state.user_state.nick = None;
+                        conn_state.user_state.update_source();
                         return Ok(());
                     }
                 };
